@@ -70,6 +70,9 @@ class SubsetGen:
 
     def string(self, d):
         r = self.r
+        if r.random() < 0.3:
+            from . import c02_literals
+            return c02_literals.literal(r)          # literal contents that must survive untouched
         if d <= 0 or r.random() < 0.5:
             return r.choice(["'ab'", "''", "'True'", "'false'", "'x and y'", "\"q\"", "'1 < 2'", "'True or False'"])
         if r.random() < 0.5:
@@ -327,6 +330,45 @@ class C02(C01):
                             f"(arguments received by the tool: {seen[-1:]})",
                             case={"expr": e, "pathway": pw, "tool_probe": True, "schema": sch}))
         self.extra_cov["tool_argument_probes"] = n
+        # Other engine objects in the same process - whatever options they were built with - must not change what a
+        # default engine computes: every constructor parameter the class has NOW is tried with assorted values on
+        # sibling objects (which also evaluate something), then an old and a fresh default engine are compared with Python.
+        import inspect
+        import math as _m
+        probes = ["0.1 + 0.2 == 0.3", "0.1 + 0.2 != 0.3", "1 if sqrt(2) * sqrt(2) == 2 else 0", "0 <= 3 * 0.1 == 0.3",
+                  "2 ** 0.5 * 2 ** 0.5", "'a' < 'b'", "not 0.0", "[1, 2] + [3]", "round(2.675, 2)", "7 // 2", "-7 % 3",
+                  "max(1, 2.0)", "1 == 1.0", "True + True", "'ab' * 2", "10 / 4", "1e16 + 1 - 1e16", "len('abc')",
+                  "3 * 0.1", "0.3 == 0.1 * 3", "abs(-0.0)", "1 < 2 < 3", "1 if [] else 2", "'x' + 'y' == 'xy'"]
+        env = {"__builtins__": {}, "sqrt": _m.sqrt, "round": round, "max": max, "abs": abs, "len": len}
+        want = {e: eval(e, env) for e in probes}
+        old_engine = Mitochondria(silent=True)
+        params = [p for p in inspect.signature(Mitochondria.__init__).parameters if p not in ("self", "tools")]
+        values = [None, True, False, 0, 1, 0.5, 1e-9, 1e-3, 10, "x", (), set()]
+        built = 0
+        for pn in params:
+            for v in values:
+                try:
+                    sib = Mitochondria(**{pn: v, **({} if pn == "silent" else {"silent": True})})
+                    built += 1
+                    for e in probes[:6]:
+                        sib.metabolize(e)
+                except BaseException:  # noqa - a sibling that cannot be built or used is not our concern here
+                    pass
+        for label, eng in (("created before the siblings", old_engine), ("created after the siblings", Mitochondria(silent=True))):
+            for e in probes:
+                try:
+                    r = eng.metabolize(e)
+                except BaseException as ex:  # noqa
+                    self.violations.append(Violation("C02/raises", f"metabolize({e!r}) raised {type(ex).__name__} on a default engine {label}",
+                                                     case={"expr": e, "pathway": None, "sibling_probe": True}))
+                    break
+                if r.success and not py_equal(r.atp.value, want[e]) and not (type(r.atp.value) is bool and r.atp.value == bool(want[e])):   # logic pathway coerces to bool
+                    self.violations.append(Violation(
+                        "C02/value-differs", f"a default engine {label} (other engines were built with every constructor option "
+                        f"{params}) evaluates {e!r} to {r.atp.value!r}; Python gives {want[e]!r}",
+                        case={"expr": e, "pathway": None, "sibling_probe": True, "constructor_parameters": params}))
+                    break
+        self.extra_cov["sibling_engines_built"] = built
 
     def classify(self, case, obs, trace):
         ks = C01.classify(self, case, obs, trace)
